@@ -196,6 +196,9 @@ func (fi *funcInfo) entryFacts() []Lin {
 			}
 		}
 	}
+	for _, pc := range fi.ptrSliceParamCands() { // a slice reached through a pointer parameter (ext_y1.go)
+		cands = append(cands, cand{callee: pc.callee, caller: pc.caller})
+	}
 	var out []Lin
 	for _, cd := range cands {
 		holds := true
